@@ -113,7 +113,8 @@ def sample(rows, tier, seed):
                                                r["grid"], r["ud"]), n_noisy)
         out += _stratified(rng, ro, lambda r: (r["r"], r["c"], r["st"],
                                                r["grid"], r["ud"]), n_out)
-        plan[cl] = (n_noisy, n_out)
+        # a class cannot run more scenarios than the table has rows for it
+        plan[cl] = (min(n_noisy, len(rn)), min(n_out, len(ro)))
     rng.shuffle(out)
     return out, plan
 
